@@ -162,16 +162,16 @@ PROPS = {
         "assumptions": ["the mutating webhook re-defaults the object before validation"],
     },
     "C10": {
-        "prop_files": ["Katib/Props/C10.lean"],
+        "prop_files": ["Katib/Props/C10.lean", "Katib/Props/C10Guards.lean"],
         "n": {"quick": 6000, "thorough": 200000},
         "rule": "four generators: (1) experiments (settings, objective, 0-3 parameters with every type/distribution incl. unknown ones, NAS config, budget, early stopping) "
                 "+ settings held by the suggestion, sent through the real SyncAssignments and captured from the fake RPC client; (2) trial lists with strategies, assignments, "
                 "labels, condition lists, times, observations through ConvertTrials; (3) 2-5 sync rounds with scripted settings replies (the status accumulates, the next request "
                 "overlays); (4) reflection over ExperimentSpec: one leaf edited per case (case k = path k mod #paths), the converted request must change unless the path is in the "
                 "consumed-locally allow-list; distinct = distinct op line",
-        "trusted": ["the go/ast enum translator (kvh extract enums)", "proto.Equal / String() of generated proto code", "strconv float formatting and time.Format as oracles"],
+        "trusted": ["the go/ast enum translator (kvh extract enums)", "the go/ast path-condition translator (kvh extract guards / pred / skip; what it is trusted for: DESIGN.md section 2)", "proto.Equal / String() of generated proto code", "strconv float formatting and time.Format as oracles"],
         "modelled": ["ConvertExperiment, ConvertTrials, convert* helpers, convertNasConfig, appendAlgorithmSettingsFromSuggestion, updateAlgorithmSettings as Katib.Conv.*"],
-        "level_text": "Lean theorems: enum tables regenerated from the converter switches are name-matched, injective, round-trip and total up to an allow-list (decide); "
+        "level_text": "Lean theorems: enum tables regenerated from the converter switches are name-matched, injective, round-trip and total up to an allow-list (decide); C10_metric_value_is_source / C10_trial_sent_is_source / C10_observation_sent_is_source: the value sent per metric strategy, the filter of ConvertTrials and the last-condition test are made under exactly the path conditions regenerated from convertTrialObservation (expression switch) and ConvertTrials on this run (8 sites); "
                       "settings override incl. across rounds (C10_settings_override, C10_settings_rounds), field fidelity (C10_fields, C10_params, C10_nas, C10_trials, "
                       "C10_last_condition), strategy-selected metric value (C10_metric_value); differential run against the real converters incl. reflection field coverage",
         "level_note": "trusted: Lean kernel; harness/check; translator; proto3 conflations are part of the statement (absent goal / counts arrive as 0)",
